@@ -161,6 +161,9 @@ def check_property(prop, tier, seed, timeout_s):
         from . import cliwiring
         wobls, _opts = cliwiring.obligations()
         all_obls += wobls
+    if spec.get("wiring_fast"):
+        from . import fastwiring
+        all_obls += fastwiring.obligations()
     if spec.get("lawtags"):
         from . import lawtags
         all_obls += lawtags.obligations()
